@@ -212,6 +212,17 @@ class Session:
         self.f0 = field.fdata(self.model, self.mesh, [q0.copy()], t=t0)
         self.rtol = 1e-6 if KIND_OF[clsname] != "onestep" else 1e-12
         self.raised = None
+        # integrators live among other integrators: another object of the same class, on another discretisation, is built
+        # afterwards and does a one-iteration solve with the other directive and another CFL number
+        try:
+            dmesh = FakeMesh(2)
+            ddisc = RecDisc(2, "c3", rec=False, dtlocal_spread=True)
+            ddisc.model, ddisc.mesh = FakeModel(1 - islinear), dmesh
+            decoy = self.cls(dmesh, ddisc)
+            decoy.solve(field.fdata(ddisc.model, dmesh, [np.array([0.5, -2.0])], t=3.0), 0.37, stop={"maxit": 1},
+                        directives={"dtlocal": True})
+        except Exception:
+            pass
 
     # -- reference semantics of "the ideal forward step": the integrator's own step on a fresh / copied object
     def _reference(self, op):
